@@ -866,6 +866,7 @@ func (w *WAL) Close() error {
 		return nil
 	}
 
+	verifhook.Point("wal.close.begin")
 	// Flush the buffer first before changing status
 	// This ensures all data is flushed to disk even if status is changing
 	if err := w.writer.Flush(); err != nil {
